@@ -12,6 +12,7 @@ pub mod c01;
 pub mod c02;
 pub mod c03;
 pub mod c04;
+pub mod c08;
 pub mod c14;
 pub mod c15;
 pub mod c17;
@@ -28,6 +29,8 @@ pub fn run_property(prop: &str, ctx: &Ctx) -> Option<Report> {
         "C05" => mgrx::run(ctx, "C05"),
         "C06" => mgrx::run(ctx, "C06"),
         "C10" => mgrx::run(ctx, "C10"),
+        "C08" => c08::run(ctx, "C08"),
+        "C09A" => c08::run(ctx, "C09"),
         "C14" => c14::run(ctx),
         "C15" => c15::run(ctx),
         "C17" => c17::run(ctx),
